@@ -18,8 +18,8 @@ CanQuery(t) == t >= now
 
 Expect(c, d, t) == {x.id : x \in {x \in vals : x.e >= t /\ x.a <= d /\ c <= x.b}}
 
-NoDup(s) == \A i, j \in 1..Len(s) : i # j => s[i] # s[j]
 Range(s) == {s[i] : i \in 1..Len(s)}
+NoDup(s) == Cardinality(Range(s)) = Len(s)          \* no element twice (linear in the length)
 
 \* the yield `res` of a query; complete: the iterator was consumed to its end
 YieldOK(res, c, d, t, complete) ==
@@ -28,6 +28,9 @@ YieldOK(res, c, d, t, complete) ==
   /\ (complete => Range(res) = Expect(c, d, t))
 
 Insert(id, a, b, e) == vals' = vals \cup {[id |-> id, a |-> a, b |-> b, e |-> e]} /\ UNCHANGED now
+\* a run of n insertions of values id0 .. id0 + n - 1, all with the same bucket range and expiration
+BulkVals(id0, n, a, b, e) == {[id |-> id0 + i, a |-> a, b |-> b, e |-> e] : i \in 0..(n - 1)}
+BulkInsert(id0, n, a, b, e) == vals' = vals \cup BulkVals(id0, n, a, b, e) /\ UNCHANGED now
 Query(t) == CanQuery(t) /\ now' = t /\ UNCHANGED vals
 Clear == vals' = {} /\ now' = 0
 =============================================================================
